@@ -60,7 +60,7 @@ CLAIMED["C05"] = (
     "The token-level parser model (Model/Parser.v: every parseX of parser*.go incl. validate()) is compared with logql.Parse on the exact tree for random grammar-derived queries in three layouts "
     "(incl. comments, both quoting styles), a list of statically invalid queries and single-token corruptions; what the text denotes is computed independently by the generator and checked on the "
     "implementation's output. Proved: parse_print_selector_partial (round trip for selectors with any number of matchers, label names lexed as Ident or as keywords, D29), "
-    "parse_print_pipeline_partial (round trip for pipelines of any length over line filters incl. ip(), pattern, line_format, unpack, decolorize, drop / keep name lists, distinct, json / logfmt label lists, label_format, label filters), vec_param_parse (topk(k, ..) / bottomk / sort / sort_desc / sum(..) with the operand directly in parentheses), unwrap_agg_param_parse (quantile_over_time(p, .. | unwrap ..)), bin_range_parse (one binary operation between two range aggregations, all fifteen operators), bin_mod_parse (the same with a modifier: bool, on / ignoring (labels), group_left / group_right with or without (labels), and their combinations -> the modifier node), bin_op_text_parse (the TEXT of such a binary operation, any covered layout -> lexer -> parser -> tree), bin_lit_right_parse / bin_lit_left_parse (a range aggregation and a signed number on either side, arithmetic and comparison operators, any modifier), scalar_logic_rejected (and / or / unless with a number operand are rejected), parse_print_labelfilter_partial (label-filter predicates: string / number / duration / bytes / ip comparisons, parentheses, and / or chains with `and` tighter than `or`, D34), "
+    "parse_print_pipeline_partial (round trip for pipelines of any length over line filters incl. ip(), pattern, line_format, unpack, decolorize, drop / keep name lists, distinct, json / logfmt label lists, label_format, label filters), vec_param_parse (topk(k, ..) / bottomk / sort / sort_desc / sum(..) with the operand directly in parentheses), unwrap_agg_param_parse (quantile_over_time(p, .. | unwrap ..)), bin_range_parse (one binary operation between two range aggregations, all fifteen operators), bin_mod_parse (the same with a modifier: bool, on / ignoring (labels), group_left / group_right with or without (labels), and their combinations -> the modifier node), bin_op_text_parse (the TEXT of such a binary operation, any covered layout -> lexer -> parser -> tree), bin_lit_right_parse / bin_lit_left_parse (a range aggregation and a signed number on either side, arithmetic and comparison operators, any modifier), scalar_logic_rejected (and / or / unless with a number operand are rejected), paren_parse (redundant parentheses around a range aggregation are kept as a ParenExpr node), parse_print_labelfilter_partial (label-filter predicates: string / number / duration / bytes / ip comparisons, parentheses, and / or chains with `and` tighter than `or`, D34), "
     "parse_print_logrange_partial ({selector} pipeline [range] offset), log_query_parse and range_agg_parse (whole queries through parse_tokens = logql.Parse after tokenizing: every log query over the fragment, and every "
     "count_over_time / rate / bytes_over_time / bytes_rate / absent_over_time over such a log range, denotes exactly its structure), vec_agg_parse (sum/avg/count/max/min/stddev/stdvar by|without (labels) over such a range "
     "aggregation), unwrap_agg_parse (range aggregations over `| unwrap l` / `| unwrap bytes(l)` with range, offset and optional grouping), seven static-rule theorems about validate(). "
